@@ -18,6 +18,12 @@ from .utilities import TrackedArray
 
 class CellVariable:
 
+    # Let NumPy scalars and arrays on the left-hand side of a binary operator 
+    # defer to the reflected operators of this class (otherwise, e.g., 
+    # np.float64(2.0)*phi is evaluated by NumPy via __array__ and returns a 
+    # plain ndarray instead of a CellVariable).
+    __array_priority__ = 100.0
+
     @overload
     def __init__(self, mesh_struct: MeshStructure, cell_value: np.ndarray,
                  BC: BoundaryConditionsBase):
